@@ -581,6 +581,11 @@ def write_manifest():
             "level_note": "; ".join(p.get("assumptions", [])) or "trusted base: harness reference model and judge",
             "technique": p.get("technique", "runtime monitoring: sanitizer-instrumented executions of the real library checked by an independent reference-model oracle"),
         })
+    na = list(props.NOT_APPLICABLE)
+    allp = [json.loads(l)["id"] for l in open(os.path.join(ROOT, "properties.jsonl")) if l.strip()]
+    for pid in allp:
+        if pid not in PROPS and not any(x["property_id"] == pid for x in na):
+            na.append({"property_id": pid, "reason": "monitor for this property is not built yet in this revision (not claimed)"})
     man = {
         "version": 1,
         "setup_cmd": "python3 verif.py setup",
@@ -594,7 +599,7 @@ def write_manifest():
         "engines": [{"name": "mon", "path": "/verif/harness", "serves_properties": sorted(PROPS),
                      "kind_free_text": "C monitor engine statically linked against one build configuration of m4ri (ASan+UBSan / TSan / Archer / memcheck), driven and judged by verif.py"}],
         "checks": checks,
-        "not_applicable": props.NOT_APPLICABLE,
+        "not_applicable": na,
         "notes": "Runtime monitoring only. Exit 0 held on everything observed; 1 violation not in known_findings.txt; 2 harness failure / inconclusive. VERIF_SEED selects the PRNG stream.",
     }
     json.dump(man, open(os.path.join(ROOT, "MANIFEST.json"), "w"), indent=1)
